@@ -20,6 +20,7 @@ import EPV.Gen.K1d3D
 import EPV.Spec.Burn
 import EPV.Lemmas.BurnK1
 import EPV.Tactics
+import EPV.Lemmas.Bridge.DetonTactics
 
 set_option linter.all false
 
@@ -59,16 +60,16 @@ theorem k1d2_gradient (p : K1d2.P) (hD : 0 < p.D) (x y : ℝ) (h : ¬(x = p.xd0 
   have hpos : 0 < (x - p.xd0) * (x - p.xd0) + (y - p.xd1) * (y - p.xd1) :=
     lt_of_le_of_ne (by nlinarith [mul_self_nonneg (x - p.xd0), mul_self_nonneg (y - p.xd1)]) (Ne.symm hne)
   have e : K1d2.burntime p = K1d2.L1.burntime p := by
-    funext a b
-    have hc : ¬ K1d2.c0 p a b := by simp only [epv_cond]; exact not_le.mpr hD
-    simp only [epv_tree, if_neg hc]
+    funext a b; exact k1d2_eq_leaf p hD a b
   refine ⟨K1d2.L1.burntime_dx p x y, K1d2.L1.burntime_dy p x y, ?_, ?_, ?_⟩
-  · rw [e]; exact K1d2.L1.burntime_hasDerivAt_x p x y hne
-  · rw [e]; exact K1d2.L1.burntime_hasDerivAt_y p x y hne
+  · rw [e]; exact K1d2.L1.burntime_hasDerivAt_x p x y (by epv_deton_side)
+  · rw [e]; exact K1d2.L1.burntime_hasDerivAt_y p x y (by epv_deton_side)
   · simp only [epv_deriv]
-    set s := Real.sqrt ((x - p.xd0) * (x - p.xd0) + (y - p.xd1) * (y - p.xd1)) with hs
-    have hs0 : 0 < s := Real.sqrt_pos.mpr hpos
-    have hs2 : s * s = (x - p.xd0) * (x - p.xd0) + (y - p.xd1) * (y - p.xd1) := Real.mul_self_sqrt hpos.le
+    epv_deton_sqrt_gen s hs0 hs2
+    have hs0' : 0 < s := by
+      rcases hs0.lt_or_eq with h' | h'
+      · exact h'
+      · exfalso; rw [← h'] at hs2; nlinarith
     field_simp
     nlinarith
 
@@ -108,18 +109,17 @@ theorem k1d3_gradient (p : K1d3.P) (hD : 0 < p.D) (x y z : ℝ) (h : ¬(x = p.xd
       nlinarith [mul_self_nonneg (x - p.xd0), mul_self_nonneg (y - p.xd1), mul_self_nonneg (z - p.xd2)])
       (Ne.symm hne)
   have e : K1d3.burntime p = K1d3.L1.burntime p := by
-    funext a b c
-    have hc : ¬ K1d3.c0 p a b c := by simp only [epv_cond]; exact not_le.mpr hD
-    simp only [epv_tree, if_neg hc]
+    funext a b c; exact k1d3_eq_leaf p hD a b c
   refine ⟨K1d3.L1.burntime_dx p x y z, K1d3.L1.burntime_dy p x y z, K1d3.L1.burntime_dz p x y z, ?_, ?_, ?_, ?_⟩
-  · rw [e]; exact K1d3.L1.burntime_hasDerivAt_x p x y z hne
-  · rw [e]; exact K1d3.L1.burntime_hasDerivAt_y p x y z hne
-  · rw [e]; exact K1d3.L1.burntime_hasDerivAt_z p x y z hne
+  · rw [e]; exact K1d3.L1.burntime_hasDerivAt_x p x y z (by epv_deton_side)
+  · rw [e]; exact K1d3.L1.burntime_hasDerivAt_y p x y z (by epv_deton_side)
+  · rw [e]; exact K1d3.L1.burntime_hasDerivAt_z p x y z (by epv_deton_side)
   · simp only [epv_deriv]
-    set s := Real.sqrt ((x - p.xd0) * (x - p.xd0) + (y - p.xd1) * (y - p.xd1) + (z - p.xd2) * (z - p.xd2)) with hs
-    have hs0 : 0 < s := Real.sqrt_pos.mpr hpos
-    have hs2 : s * s = (x - p.xd0) * (x - p.xd0) + (y - p.xd1) * (y - p.xd1) + (z - p.xd2) * (z - p.xd2) :=
-      Real.mul_self_sqrt hpos.le
+    epv_deton_sqrt_gen s hs0 hs2
+    have hs0' : 0 < s := by
+      rcases hs0.lt_or_eq with h' | h'
+      · exact h'
+      · exfalso; rw [← h'] at hs2; nlinarith
     field_simp
     nlinarith
 
